@@ -123,7 +123,7 @@ Section CanonSem.
       destruct r; try reflexivity. cbn [factors_of forallb] in Hf. discriminate.
     Qed.
 
-    Lemma canon_sorted_perm l l' : canon_sorted o l = Some l' -> Permutation l l'.
+    Lemma canon_sorted_perm l l' : canon_sorted false o l = Some l' -> Permutation l l'.
     Proof. unfold canon_sorted. destruct (forallb _ l); [|discriminate]. intros E. injection E as <-. apply stable_sort_perm. Qed.
 
     Fixpoint leaves_of (es : list expr) : list expr :=
@@ -149,10 +149,10 @@ Section CanonSem.
         unfold wfe in Hwf; rewrite !andb_true_iff in Hwf; destruct Hwf as [[Hok Hnz] Hsn]; unfold okp in Hok; cbn [all_atoms nz sums_nodup] in *; try discriminate.
       - (* probability *)
         eapply Inv_of_result; [reflexivity| |].
-        + destruct (canon_sorted o ch) as [c|] eqn:Ec; [|reflexivity]. destruct (canon_sorted o pa) as [p|] eqn:Ep; [|reflexivity].
+        + destruct (canon_sorted false o ch) as [c|] eqn:Ec; [|reflexivity]. destruct (canon_sorted false o pa) as [p|] eqn:Ep; [|reflexivity].
           pose proof (canon_sorted_perm _ _ Ec) as Hpc. pose proof (Aok_perm pop ch c pa p Hpc Hok) as Hc.
           unfold prob_raw. destruct c; [apply Aok_spec in Hc; tauto|]. apply PA_of_atoms. exact Hc.
-        + destruct (canon_sorted o ch) as [c|] eqn:Ec; [|discriminate]. destruct (canon_sorted o pa) as [p|] eqn:Ep; [|discriminate].
+        + destruct (canon_sorted false o ch) as [c|] eqn:Ec; [|discriminate]. destruct (canon_sorted false o pa) as [p|] eqn:Ep; [|discriminate].
           intros Hne env0. unfold prob_raw in *. destruct c as [|c0 ct] eqn:Ecc; [discriminate|]. rewrite <- Ecc in *. cbn [eval].
           apply (law_perm m Hlaw); apply Permutation_sym; eapply canon_sorted_perm; eassumption.
       - (* product *)
